@@ -224,7 +224,7 @@ impl Series1 {
                 let x0 = self.x[j];
                 let x1 = self.x[j + 1];
                 let m = (v1 - v0) / (x1 - x0);
-                if !m.is_finite() {
+                if !m.is_finite() || m == 0.0 {
                     continue;
                 }
                 let x = x0 + (y_equals - v0) / m;
